@@ -146,7 +146,7 @@ def main(args, seed):
     if True:
         # keep the table next to the catalogue; a partial run updates / adds its rows
         what = {m["name"]: m.get("what", "") for m in load_mutations()}
-        res_path = os.path.join(HERE, "RESULTS.md")
+        res_path = os.environ.get("VERIF_RESULTS_FILE") or os.path.join(HERE, "RESULTS.md")
         if args and os.path.exists(res_path):
             old_rows = []
             with open(res_path) as fh:
@@ -162,7 +162,7 @@ def main(args, seed):
             rows = [r for r in old_rows if r[0] not in new_names] + rows
         head = subprocess.run(["git", "-C", repo, "rev-parse", "--short", "HEAD"],
                               capture_output=True, text=True).stdout.strip()
-        with open(os.path.join(HERE, "RESULTS.md"), "w") as fh:
+        with open(res_path, "w") as fh:
             fh.write("# Sensitivity self-test results\n\n"
                      f"`./verif selftest sensitivity --tier {tier}` with VERIF_SEED={seed} against "
                      f"scratch copies of /repo at {head}.  *OK-caught* = quick tier exits 1 with a "
